@@ -345,7 +345,23 @@ def run(prog, chk):
                     for (bb, ii, r3_, c3) in fn.calls():
                         if bb.id in rr_ and c3.get("callee") in ("cif_packet_free", "cif_value_free", "cif_value_clean"):
                             deep = True
-                if mac and not deep:
+                # the pointers of the kind are set to NULL before the first step that can fail: then clean/free is safe
+                nulled = set()
+                fallible = [(bb.id, ii) for (bb, ii, r4, c4) in fn.calls() if "GET_VALUE_PROPS" in (c4.get("ms") or [])
+                            and c4.get("callee") in ("malloc", "cif_value_deserialize")]
+                for (bb, ii, r4, a4) in fn.eval_sites("asg"):
+                    # a store written in the macro itself (innermost expansion), at the top of the kind's `case` block
+                    if (a4.get("ms") or [None])[0] == "GET_VALUE_PROPS" and a4.get("op") == "=" and const(a4.get("rhs")) == 0:
+                        lp4 = path(strip(a4.get("lhs"))) or ""
+                        m4 = re.search(r"as_(char|numb)\.(text|digits|su_digits)$", lp4)
+                        if m4 and bb.label and bb.label.get("k") == "case":
+                            if all(fb != bb.id or fi > ii for (fb, fi) in fallible):
+                                nulled.add((m4.group(1), m4.group(2)))
+                want_null = {("char", "text"), ("numb", "text"), ("numb", "digits"), ("numb", "su_digits")}
+                if mac and nulled >= want_null:
+                    r5.ok("%s:GET_VALUE_PROPS" % fn.name, "kind stored first, but all four pointer fields are set to NULL before the first "
+                          "fallible step: a partially filled value can be released normally")
+                elif mac and not deep:
                     r5.info("%s:GET_VALUE_PROPS" % fn.name, "kind stored before fields, but the failure ladder only frees the shell (leak judged by R1)")
                 elif mac:
                     r5.violation(fn.file, fn.name, n.get("l"), "kind-before-fields:%s:GET_VALUE_PROPS" % fn.name,
